@@ -10,4 +10,5 @@ import (
 	_ "verif/harness/props/c11"
 	_ "verif/harness/props/c12"
 	_ "verif/harness/props/c17"
+	_ "verif/harness/props/c18"
 )
